@@ -212,7 +212,7 @@ pub fn run(ctx: &Ctx) -> Result<Evidence, String> {
         if !exe.exists() {
             return Err(format!("{} not built (run ./vf setup)", exe.display()));
         }
-        let iso = Isolation { exe, args: vec!["worker".into(), "C11".into(), "all".into(), ctx.tier.name().into()], stack_bytes: None, mem_bytes: Some(8 << 30), env: vec![], chunk: None };
+        let iso = Isolation { exe, args: vec!["worker".into(), "C11".into(), "all".into(), ctx.tier.name().into()], stack_bytes: None, mem_bytes: Some(8 << 30), env: vec![], chunk: None, max_deaths: 4 };
         let acc = run_isolated(ctx, &set, &iso, ctx.threads, &|idx, death| {
             let d = set.describe(idx);
             match death {
